@@ -7,8 +7,8 @@ Open Scope nat_scope.
 Definition gsel (t : list expr) (v : nat -> bool) (s : summary) : bool :=
   existsb (fun e => bdd_eval v (fst e) && bsem t v (snd e)) s.
 
-Lemma to_guard_spec debug s : forall t acc t' g,
-  to_guard debug t s acc = Ok (t', g) ->
+Lemma to_guard_spec rp debug s : forall t acc t' g,
+  to_guard rp debug t s acc = Ok (t', g) ->
   extends t t' /\ (forall e, In e s -> covered t' (snd e) = true) /\
   forall v, bdd_eval v g = bdd_eval v acc || gsel t' v s.
 Proof.
@@ -56,11 +56,11 @@ Qed.
 
 (** the cases of a successful [apply_ite]: the result is one of the branches, chosen
     soundly, or the two branches restricted to [tc] / [not tc] *)
-Lemma apply_ite_cases debug t c tr fl t' r :
-  apply_ite debug t c tr fl = Ok (t', r) ->
+Lemma apply_ite_cases rp debug t c tr fl t' r :
+  apply_ite rp debug t c tr fl = Ok (t', r) ->
   (vs_is_true c = true /\ t' = t /\ r = tr) \/
   (vs_is_false c = true /\ t' = t /\ r = fl) \/
-  (exists tc, to_guard debug t c (BLeaf false) = Ok (t', tc) /\
+  (exists tc, to_guard rp debug t c (BLeaf false) = Ok (t', tc) /\
      ((is_true tc = true /\ r = tr) \/ (is_true (bdd_not tc) = true /\ r = fl) \/
       r = map (fun e => (bdd_and (fst e) tc, snd e)) tr ++
           map (fun e => (bdd_and (fst e) (bdd_not tc), snd e)) fl)).
@@ -75,8 +75,8 @@ Proof.
 Qed.
 
 (** the guard of the condition is the truth value of the value the condition denotes *)
-Lemma cond_guard debug t c t' tc v xc :
-  to_guard debug t c (BLeaf false) = Ok (t', tc) -> denotes v c xc -> bdd_eval v tc = bsem t' v xc.
+Lemma cond_guard rp debug t c t' tc v xc :
+  to_guard rp debug t c (BLeaf false) = Ok (t', tc) -> denotes v c xc -> bdd_eval v tc = bsem t' v xc.
 Proof.
   intros H Hd. apply to_guard_spec in H. destruct H as (_ & _ & Hv).
   rewrite Hv. cbn [bdd_eval orb]. now apply gsel_denotes.
@@ -104,8 +104,8 @@ Proof.
 Qed.
 
 (** [den_commutes] for [apply_ite] *)
-Lemma ite_denotes debug t c tr fl t' r v xc xt xf :
-  apply_ite debug t c tr fl = Ok (t', r) ->
+Lemma ite_denotes rp debug t c tr fl t' r v xc xt xf :
+  apply_ite rp debug t c tr fl = Ok (t', r) ->
   denotes v c xc -> denotes v tr xt -> denotes v fl xf ->
   denotes v r (if bsem t' v xc then xt else xf).
 Proof.
@@ -115,7 +115,7 @@ Proof.
     apply single_denotes in Hc. subst x. now rewrite (expr_is_true_bsem t v xc Hc1).
   - destruct c as [| [g x] [|]]; try discriminate. cbn in Hc0.
     apply single_denotes in Hc. subst x. now rewrite (expr_is_false_bsem t v xc Hc0).
-  - rewrite <- (cond_guard debug t c t' tc v xc Hg Hc).
+  - rewrite <- (cond_guard rp debug t c t' tc v xc Hg Hc).
     destruct H as [(T & ->) | [(T & ->) | ->]].
     + now rewrite (is_true_sound v tc T).
     + apply (is_true_sound v) in T. rewrite eval_not in T.
@@ -124,8 +124,8 @@ Proof.
 Qed.
 
 (** [partition_inv] for [apply_ite]: the condition need not even be a partition *)
-Lemma ite_partition debug t c tr fl t' r v :
-  apply_ite debug t c tr fl = Ok (t', r) ->
+Lemma ite_partition rp debug t c tr fl t' r v :
+  apply_ite rp debug t c tr fl = Ok (t', r) ->
   count_true v tr = 1 -> count_true v fl = 1 -> count_true v r = 1.
 Proof.
   intros H Ht Hf. apply apply_ite_cases in H.
@@ -134,7 +134,7 @@ Proof.
   destruct (bdd_eval v tc); reflexivity.
 Qed.
 
-Lemma ite_extends debug t c tr fl t' r : apply_ite debug t c tr fl = Ok (t', r) -> extends t t'.
+Lemma ite_extends rp debug t c tr fl t' r : apply_ite rp debug t c tr fl = Ok (t', r) -> extends t t'.
 Proof.
   intros H. apply apply_ite_cases in H.
   destruct H as [(_ & -> & _) | [(_ & -> & _) | (tc & Hg & _)]]; try apply extends_refl.
@@ -143,9 +143,9 @@ Qed.
 
 (* ------------------------------------------------------------------ import_into_guard *)
 
-Lemma import_cases debug t s t' r :
-  import_into_guard debug t s = Ok (t', r) ->
-  exists g, to_guard debug t s (BLeaf false) = Ok (t', g) /\
+Lemma import_cases rp debug t s t' r :
+  import_into_guard rp debug t s = Ok (t', r) ->
+  exists g, to_guard rp debug t s (BLeaf false) = Ok (t', g) /\
     ((is_true g = true /\ r = [(BLeaf true, lit_true)]) \/
      (is_false g = true /\ r = [(BLeaf true, lit_false)]) \/
      r = [(bdd_not g, lit_false); (g, lit_true)]).
@@ -157,8 +157,8 @@ Proof.
 Qed.
 
 (** whatever the argument: the result of [import_into_guard] is a partition *)
-Lemma import_partition debug t s t' r v :
-  import_into_guard debug t s = Ok (t', r) -> count_true v r = 1.
+Lemma import_partition rp debug t s t' r v :
+  import_into_guard rp debug t s = Ok (t', r) -> count_true v r = 1.
 Proof.
   intros H. apply import_cases in H.
   destruct H as (g & _ & [(_ & ->) | [(_ & ->) | ->]]); try reflexivity.
@@ -168,12 +168,12 @@ Qed.
 
 (** [den_commutes] for [import_into_guard]: the result selects the literal with the truth
     value of the value selected from the argument *)
-Lemma import_denotes debug t s t' r v x :
-  import_into_guard debug t s = Ok (t', r) -> denotes v s x ->
+Lemma import_denotes rp debug t s t' r v x :
+  import_into_guard rp debug t s = Ok (t', r) -> denotes v s x ->
   denotes v r (if bsem t' v x then lit_true else lit_false).
 Proof.
   intros H Hd. apply import_cases in H. destruct H as (g & Hg & H).
-  rewrite <- (cond_guard debug t s t' g v x Hg Hd).
+  rewrite <- (cond_guard rp debug t s t' g v x Hg Hd).
   destruct H as [(T & ->) | [(T & ->) | ->]].
   - rewrite (is_true_sound v g T). apply new_denotes.
   - rewrite (is_false_sound v g T). apply new_denotes.
@@ -189,7 +189,7 @@ Qed.
 Lemma bsem_lit t v (b : bool) : bsem t v (if b then lit_true else lit_false) = b.
 Proof. now destruct b. Qed.
 
-Lemma import_extends debug t s t' r : import_into_guard debug t s = Ok (t', r) -> extends t t'.
+Lemma import_extends rp debug t s t' r : import_into_guard rp debug t s = Ok (t', r) -> extends t t'.
 Proof.
   intros H. apply import_cases in H. destruct H as (g & Hg & _). now apply to_guard_spec in Hg.
 Qed.
